@@ -343,16 +343,59 @@ where
   par_chunks_n(ctx, t, lo, hi, chunk, f)
 }
 
+/// what each worker thread is exploring right now: (sweep number, chunk lo, chunk hi, started)
+pub static WATCH: Mutex<Vec<Option<(usize, usize, usize, Instant)>>> = Mutex::new(Vec::new());
+static SWEEP: AtomicUsize = AtomicUsize::new(0);
+static SLOT: AtomicUsize = AtomicUsize::new(0);
+
+/// Watchdog: an implementation call that never returns (or allocates without bound) cannot be caught by
+/// catch_unwind. If one chunk stays in progress longer than `stuck_s`, or the process grows beyond `rss_cap_mb`,
+/// the chunk is reported as a violation ("nontermination"), the partial result is written and the process exits 3.
+pub fn start_watchdog(ctx: &'static Ctx, result_path: String, replay_tail: Vec<String>) {
+  let stuck_s = env_u64("VERIF_STUCK_S", if ctx.quick() { 30 } else { 180 });
+  let rss_cap_mb = env_u64("VERIF_RSS_CAP_MB", 3000);
+  std::thread::spawn(move || loop {
+    std::thread::sleep(Duration::from_millis(500));
+    let rss_mb = std::fs::read_to_string("/proc/self/statm").ok().and_then(|s| s.split_whitespace().nth(1).and_then(|x| x.parse::<u64>().ok())).map(|p| p * 4096 / 1_048_576).unwrap_or(0);
+    let slots = WATCH.lock().unwrap().clone();
+    for s in slots.iter().flatten() {
+      let (k, a, b, since) = *s;
+      let over = since.elapsed().as_secs() > stuck_s;
+      if over || rss_mb > rss_cap_mb {
+        let mut rp = vec!["stuck".to_string(), k.to_string(), a.to_string(), b.to_string()];
+        rp.extend(replay_tail.clone());
+        ctx.violation(
+          "nontermination",
+          format!("sweep {} chunk {}..{}", k, a, b),
+          format!("an implementation call inside sweep #{} chunk [{}, {}) of worker {}/{} {} (chunks of this sweep normally take well under a second)", k, a, b, part().0, part().1, if over { format!("has not returned for {} s", since.elapsed().as_secs()) } else { format!("made the process grow to {} MB", rss_mb) }),
+          rp,
+        );
+        ctx.timed_out.store(true, Ordering::Relaxed);
+        ctx.write_result(&result_path);
+        std::process::exit(3);
+      }
+    }
+  });
+}
+
 pub fn par_chunks_n<F>(ctx: &Ctx, threads: usize, lo: usize, hi: usize, chunk: usize, f: F) -> bool
 where
   F: Fn(usize, usize, &mut Local) + Sync,
 {
+  let sweep = SWEEP.fetch_add(1, Ordering::Relaxed);
   let next = AtomicUsize::new(lo);
   let complete = AtomicBool::new(true);
   std::thread::scope(|s| {
     for _ in 0..threads {
       s.spawn(|| {
         let mut local = Local::default();
+        let slot = SLOT.fetch_add(1, Ordering::Relaxed);
+        {
+          let mut w = WATCH.lock().unwrap();
+          if w.len() <= slot {
+            w.resize(slot + 1, None);
+          }
+        }
         loop {
           if ctx.expired() {
             if next.load(Ordering::Relaxed) < hi {
@@ -365,8 +408,10 @@ where
             break;
           }
           let b = (a + chunk).min(hi);
+          WATCH.lock().unwrap()[slot] = Some((sweep, a, b, Instant::now()));
           // a panic escaping a property body is a machinery error; make it loud
           f(a, b, &mut local);
+          WATCH.lock().unwrap()[slot] = None;
         }
         ctx.add(&local);
       });
